@@ -13,14 +13,21 @@ RULE = ('layout case = (poset: family of subsets of a k-set under inclusion in a
         'and coordinates (exact rationals of the floats) are judged by the Lean checker holdsLayout against a cover '
         'relation computed independently by the harness, and compared with the Lean models of calc_levels/fcart_layout. '
         'mover case = (orientation, position dict on a dyadic grid of <=3 levels x <=3 peers, history of swap/shift/'
-        'jitter/place operations); after every operation Mover.pos is compared with the Lean Mover model and judged by '
-        'the step oracle (level coordinates unchanged, other levels unmoved, swap/shift/jitter/place effect). '
+        'jitter/place operations, insertion order of the dictionary keys: ascending / reversed / level by level / '
+        'scrambled); Mover(pos).pos must equal the loaded dictionary; the WHOLE history is first judged by the geometric '
+        'step oracle on the implementation\'s own positions (level coordinates unchanged, other levels unmoved, swap '
+        'exchanges exactly two peers, shift by k = k places among the peers ordered by their actual coordinates before '
+        'the step with the level\'s coordinates reused, jitter/place = x+dx / x), then compared with the Lean Mover model '
+        'after every operation; layout cases also load the layout through Mover.initialize_pos in both orientations and '
+        'demand the identity. '
         'non-trivial = poset with >=2 comparable elements / history with >=1 successful state-changing operation; '
         'distinct = distinct (poset, order of elements, layout, parameters) / (orientation, positions, history)')
 EXHAUSTIVE = {
     'quick': 'layouts: all 255 non-empty families of subsets of a 3-set + concept lattices of all 682 tables n,m<=3, x '
-             '{fcart c in {0.1,0.5,1} x dpth in {1,2,3}, multipartite}; mover: every single operation of the full '
-             'alphabet on all 39 grids (<=3 levels x <=3 peers) in both orientations, all histories of length 2 on the '
+             '{fcart c in {0.1,0.5,1} x dpth in {1,2,3}, multipartite} (each also through Mover.initialize_pos, v and h); '
+             'mover: loading and every single operation of the full alphabet on all 39 grids (<=3 levels x <=3 peers) in '
+             'both orientations x 4 key insertion orders; every history [inward jitter/place of an outermost node past '
+             '>=1 peer, any operation(, shift of that node)] on 6 grids with rows of 2-4 peers; all histories of length 2 on the '
              'grids with <=4 nodes, all histories of length 3 on the grids with <=2 nodes',
     'thorough': 'layouts: additionally all families of <=7 subsets of a 4-set (26332) and lattices of all tables with '
                 'n,m<=4, n*m<=12; mover: length 2 on all 39 grids, length 3 on grids with <=4 nodes, length 4 on grids '
@@ -40,9 +47,10 @@ TRUSTED = ['networkx.multipartite_layout (not modelled: its output is judged by 
            'float arithmetic of fcart_layout / Mover vs. exact rationals of the model (compared up to 1e-9; a near-tie of '
            'two fcart priorities is tolerated as a rounding artefact)',
            'harness-side cover relation (subset inclusion / extent inclusion) and the python step oracle for the mover',
-           'the Lean mover theorems speak of ranks (peers_order); that rank order equals left-to-right geometric order '
-           '(every pos_peers row strictly ascending: true after loading distinct positions, kept by every operation) is '
-           'not formalised - the step oracle checks the geometric reading of shift on the implementation']
+           'the python step oracle reads every operation geometrically off Mover.pos (peers ordered by their actual '
+           'coordinates before the step); the Lean side proves the same reading of the model: Sorted (rows strictly '
+           'ascending along the rank order) is established by setPos on distinct positions and preserved by every '
+           'operation (mover_sorted_invariant), ranks are geometric (mover_rank_geometric, mover_shift_geometric)']
 CHUNK = 400
 REQUESTS_NEED_IMPL = True
 TOL = 1e-9
@@ -95,7 +103,7 @@ def build_poset(c):
 # ------------------------------------------------------------------------------------------ mover grids
 
 YS = [1.0, 0.25, -0.5]
-XS = {1: [0.25], 2: [-0.5, 0.75], 3: [-1.0, 0.0, 1.5]}
+XS = {1: [0.25], 2: [-0.5, 0.75], 3: [-1.0, 0.0, 1.5], 4: [-0.75, -0.25, 0.25, 0.75]}
 DXS = (0.25, -0.25, 1.0, -1.0, 1.25, -1.25, 3.0, -3.0)
 PLACES = (-2.0, 0.375, 2.0)
 SHIFTS = (-2, -1, 1, 2)
@@ -132,6 +140,23 @@ def alphabet(n, d, full=True):
     return ops
 
 
+KORDERS = ('asc', 'rev', 'bylevel', 'scrambled')
+
+
+def key_order(name, pos, d):
+    """insertion order of the keys of the position dictionary handed to Mover (None = ascending)"""
+    n = len(pos)
+    _, la = axes(d)
+    if name == 'asc':
+        return None
+    if name == 'rev':
+        return list(range(n - 1, -1, -1))
+    if name == 'bylevel':   # written level by level, each level left to right (what networkx layouts return)
+        return sorted(range(n), key=lambda i: (-pos[i][la] if d == 'v' else pos[i][la], pos[i][1 - la]))
+    return [(i * 5 + 3) % n if math.gcd(5, n) == 1 else (i * 3 + 1) % n if math.gcd(3, n) == 1 else (n - 1 - i)
+            for i in range(n)]
+
+
 def mover_exhaustive(tier, boost):
     thorough = tier == 'thorough' or boost
     for shape in all_shapes():
@@ -146,8 +171,52 @@ def mover_exhaustive(tier, boost):
                 L = 3
             if thorough and n <= 2:
                 L = 4
+            # loading alone, and every single operation, with every insertion order of the dictionary keys
+            for ko in KORDERS:
+                korder = key_order(ko, pos, d)
+                yield dict(kind='mover', stream='mover-load', dir=d, pos=pos, ops=[], korder=korder)
+                if L > 1 or ko != 'asc':
+                    for op in A:
+                        yield dict(kind='mover', stream='mover-exh-L1', dir=d, pos=pos, ops=[op], korder=korder)
+            korder = key_order('asc' if d == 'v' else 'bylevel', pos, d)
             for ops in itertools.product(A, repeat=L):
-                yield dict(kind='mover', stream=f'mover-exh-L{L}', dir=d, pos=pos, ops=list(ops))
+                yield dict(kind='mover', stream=f'mover-exh-L{L}', dir=d, pos=pos, ops=list(ops), korder=korder)
+
+
+BORDER_SHAPES = ((2,), (3,), (4,), (1, 3), (3, 2), (2, 4))
+
+
+def mover_border_inward(tier, boost):
+    """histories that START with an outermost node of a row dragged inwards past >= 1 peer (jitter or place),
+    followed by every operation of the alphabet (and then a shift of the dragged node): the first step is where
+    ranks and coordinates could get out of step, the later steps are where that shows geometrically"""
+    for shape in BORDER_SHAPES:
+        pts = grid_positions(shape)
+        n = len(pts)
+        for d in ('v', 'h'):
+            pos = orient_pos(pts, d)
+            A = alphabet(n, d)
+            firsts = []
+            for lvl in sorted(set(p[1] for p in pts)):
+                row = sorted((j for j in range(n) if pts[j][1] == lvl), key=lambda j: pts[j][0])
+                if len(row) < 2:
+                    continue
+                xs = [pts[j][0] for j in row]
+                for node, targets in ((row[0], [(xs[g] + xs[g + 1]) / 2 for g in range(1, len(xs) - 1)] + [xs[-1] + 0.5]),
+                                      (row[-1], [(xs[g] + xs[g + 1]) / 2 for g in range(len(xs) - 2)] + [xs[0] - 0.5])):
+                    for t in targets:
+                        firsts.append(dict(op='jitter', i=node, dx=t - pts[node][0]))
+                        if d == 'v':
+                            firsts.append(dict(op='place', i=node, x=t))
+            for ko in ('asc', 'bylevel'):
+                korder = key_order(ko, pos, d)
+                for f in firsts:
+                    for op in A:
+                        yield dict(kind='mover', stream='mover-border-inward', dir=d, pos=pos, ops=[f, op], korder=korder)
+                        if ko == 'asc' and op['op'] in ('swap', 'jitter'):
+                            for k in (-1, 1):
+                                yield dict(kind='mover', stream='mover-border-inward', dir=d, pos=pos, korder=korder,
+                                           ops=[f, op, dict(op='shift', i=f['i'], k=k)])
 
 
 def random_mover(rng, stream='mover-random'):
@@ -180,7 +249,15 @@ def random_mover(rng, stream='mover-random'):
             ops.append(dict(op='jitter', i=rng.randrange(n), dx=rng.choice([k * 0.125 for k in range(-40, 41)])))
         else:
             ops.append(dict(op='place', i=rng.randrange(n), x=rng.choice([k * 0.125 for k in range(-40, 41)])))
-    return dict(kind='mover', stream=stream, dir=d, pos=orient_pos(pts, d), ops=ops)
+    korder = None
+    t = rng.random()
+    if t < 0.6:
+        korder = list(range(n))
+        if t < 0.2:
+            korder.reverse()
+        else:
+            rng.shuffle(korder)
+    return dict(kind='mover', stream=stream, dir=d, pos=orient_pos(pts, d), ops=ops, korder=korder)
 
 
 # ------------------------------------------------------------------------------------------ generators
@@ -220,6 +297,9 @@ def gen(tier, seed, boost=False):
             yield from layout_cases_for(dict(ptype='subsets', elems=[list(s) for s in fam]), 'layout-exh-subsets3')
     for rows in G.tables_upto(3, 3):
         yield from layout_cases_for(dict(ptype='lattice', rows=rows), 'layout-exh-lattice3')
+    # --- mover: the small exhaustive scope (quick) before the large thorough/boost-only streams
+    yield from mover_border_inward(tier, boost)
+    yield from mover_exhaustive('quick', False)
     if thorough:
         sub4 = subsets_of(4)
         for r in range(1, 8):
@@ -246,8 +326,9 @@ def gen(tier, seed, boost=False):
             c = dict(kind='layout', stream='layout-random-lattice', ptype='lattice', rows=rows)
             c.update(rng.choice(list(layout_configs())))
             yield c
-    # --- mover: exhaustive then random
-    yield from mover_exhaustive(tier, boost)
+    # --- mover: the thorough exhaustive scope (its quick part was enumerated above), then random
+    if thorough:
+        yield from (c for c in mover_exhaustive(tier, boost) if c['stream'] not in ('mover-load', 'mover-exh-L1'))
     nrand = (4000 if tier == 'quick' else 80000) * (3 if boost else 1)
     for _ in range(nrand):
         yield random_mover(rng)
@@ -287,6 +368,20 @@ def impl_layout(c):
         out['keys'] = sorted(int(k) for k in pos)
         out['pos'] = [[fr(pos[i][0]), fr(pos[i][1])] for i in range(n) if i in pos]
         out['plen'] = [len(pos[i]) for i in range(n) if i in pos]
+        # Mover.initialize_pos loads the layout's own dictionary (whatever its key order): reading it back must be
+        # the identity in both orientations
+        from fcapy.visualizer.mover import Mover
+        bad = []
+        for d in ('v', 'h'):
+            m = Mover(direction=d)
+            m.initialize_pos(P, layout=c['layout'], **kw)
+            rb = m.pos
+            want = {int(k): (float(v[0]), float(v[1])) for k, v in pos.items()}
+            got = None if rb is None else {int(k): (float(v[0]), float(v[1])) for k, v in rb.items()}
+            if got != want:
+                bad.append([d, [list(got[i]) if got and i in got else None for i in range(n)]])
+        out['initpos_bad'] = bad
+        out['key_order'] = [int(k) for k in pos]
     except Exception as e:
         out['pos_err'] = exc_name(e)
     return out
@@ -313,7 +408,8 @@ def read_pos(m):
 def impl_mover(c):
     from fcapy.visualizer.mover import Mover
     try:
-        m = Mover(pos={i: (float(x), float(y)) for i, (x, y) in enumerate(c['pos'])}, direction=c['dir'])
+        keys = c.get('korder') or range(len(c['pos']))
+        m = Mover(pos={i: (float(c['pos'][i][0]), float(c['pos'][i][1])) for i in keys}, direction=c['dir'])
         out = dict(init=read_pos(m), trace=[])
     except Exception as e:
         return {'err': exc_name(e)}
@@ -375,6 +471,11 @@ def judge_layout(c, io, rep):
                     detail=f'layout raised on a non-empty poset: calc_levels {io.get("levels_err")}, layout {io.get("pos_err")}')
     if io['keys'] != list(range(io['n'])) or any(k != 2 for k in io['plen']):
         return dict(ok=False, kind='property', part='total', detail=f'positions for keys {io["keys"]} of {io["n"]} elements')
+    if io.get('initpos_bad'):
+        d, got = io['initpos_bad'][0]
+        return dict(ok=False, kind='property', part='roundtrip',
+                    detail=f'Mover(direction={d!r}).initialize_pos(poset, {c["layout"]!r}).pos = {got} differs from the layout '
+                           f'{[[fl(x), fl(y)] for x, y in io["pos"]]} (dictionary key order {io["key_order"]})')
     if not chk['holds']:
         part = next(k for k in ('total', 'inj', 'order', 'levels') if not chk[k])
         return dict(ok=False, kind='property', part=part,
@@ -491,19 +592,27 @@ def judge_mover(c, io, rep):
     want = [[float(x), float(y)] for x, y in c['pos']]
     flt = lambda ps: [[fl(x), fl(y)] for x, y in ps]
     if io['init'] is None or flt(io['init']) != want:
-        return dict(ok=False, kind='property', part='roundtrip', detail=f'Mover(pos).pos = {io["init"] and flt(io["init"])} != {want}')
+        return dict(ok=False, kind='property', part='roundtrip', detail=f'Mover(pos, {c["dir"]!r}).pos = {io["init"] and flt(io["init"])} != loaded {want} '
+                                                                       f'(keys inserted in the order {c.get("korder") or "ascending"})')
     if flt(r['init']['pos']) != want:
         return dict(ok=False, kind='harness', detail='model round trip differs (contradicts mover_roundtrip)')
-    before = want
     valid_nodes = all(0 <= o.get('i', o.get('a', 0)) < len(want) and 0 <= o.get('b', 0) < len(want) for o in c['ops'])
-    for k, (op, st, ms) in enumerate(zip(c['ops'], io['trace'], r['trace'])):
+    # pass 1 - the property, judged geometrically on the implementation's own positions over the WHOLE history
+    # (a disagreement with the model at an earlier step must not hide a later step that goes wrong)
+    before = want
+    for k, (op, st) in enumerate(zip(c['ops'], io['trace'])):
         if not isinstance(st['pos'], list):
-            return dict(ok=False, kind='property', part='readable', detail=f'step {k}: position unreadable {st["pos"]}')
+            return dict(ok=False, kind='property', part='readable', step=k, detail=f'step {k}: position unreadable {st["pos"]}')
         after = flt(st['pos'])
         if valid_nodes:
             bad = step_oracle(c['dir'], before, op, after, st.get('err'))
             if bad is not None:
-                return dict(ok=False, kind='property', part=bad[0], step=k, detail=f'step {k} {op}: {bad[1]}')
+                return dict(ok=False, kind='property', part=bad[0], step=k,
+                            detail=f'step {k} {op} of {c["ops"]}: {bad[1]}; positions before the step {before}')
+        before = after
+    # pass 2 - correspondence with the Lean model
+    for k, (op, st, ms) in enumerate(zip(c['ops'], io['trace'], r['trace'])):
+        after = flt(st['pos'])
         if st.get('err') != ms.get('err'):
             if not valid_nodes and st.get('err') and ms.get('err'):
                 pass    # malformed node index: only "both raise" is compared
@@ -514,7 +623,6 @@ def judge_mover(c, io, rep):
         if len(mp) != len(after) or any(not (close(a[0], b[0]) and close(a[1], b[1])) for a, b in zip(after, mp)):
             return dict(ok=False, kind='correspondence', part='model-pos', step=k,
                         detail=f'step {k} {op}: impl {after} model {mp}')
-        before = after
     return dict(ok=True)
 
 
@@ -536,7 +644,7 @@ def nontrivial(c):
 def key(c):
     if c['kind'] == 'layout':
         return ['L', c['ptype'], c.get('elems'), c.get('rows'), c['layout'], c.get('c'), c.get('dpth')]
-    return ['M', c['dir'], c['pos'], c['ops']]
+    return ['M', c['dir'], c['pos'], c['ops'], c.get('korder')]
 
 
 def branch(c, io, rep):
@@ -590,4 +698,10 @@ def shrink(c):
             d['pos'] = c['pos'][:j] + c['pos'][j + 1:]
             ren = lambda x: x - (x > j)
             d['ops'] = [{k: (ren(v) if k in ('i', 'a', 'b') else v) for k, v in o.items()} for o in c['ops']]
+            if c.get('korder'):
+                d['korder'] = [ren(x) for x in c['korder'] if x != j]
             yield d
+    if c.get('korder'):
+        d = dict(c)
+        d['korder'] = None
+        yield d
